@@ -188,6 +188,11 @@ func genSSOWorld(t *rapid.T, o worldOpts) world.Spec {
 	return spec
 }
 
+var (
+	reProviderName  = regexp.MustCompile(`ProviderName\s*=\s*["']`)
+	reFirstStartTag = regexp.MustCompile(`<[A-Za-z_][^<>]*?(\s*/?>)`)
+)
+
 var reqHosts = []string{"idp.example", "idp.example", "tenant-a.idp.example", "idp.example:8443", "[2001:db8::1]:8443"}
 
 // ---- rendering ----
@@ -228,9 +233,34 @@ func ssoRender(c SSOCase, now time.Time) (obs.HTTPReq, *spsim.Signed, error) {
 		case "unclosed-tag":
 			xmlb = bytes.Replace(xmlb, []byte("</"), []byte("<"), 1)
 		case "bad-entity":
-			xmlb = bytes.Replace(xmlb, []byte(">"), []byte(">&undefined;"), 1)
-			if !bytes.Contains(xmlb, []byte("</")) {
-				xmlb = append(xmlb, []byte("&undefined;")...)
+			// a reference to an entity the document does not declare (HTML names among them): not well-formed XML
+			name, where, _ := strings.Cut(d.Param, "/")
+			if name == "" {
+				name = "undefined"
+			}
+			ref := []byte("&" + name + ";")
+			if where == "attr" {
+				// in a place that carries no condition of its own: the ProviderName attribute (added when absent)
+				if loc := reProviderName.FindIndex(xmlb); loc != nil {
+					xmlb = append(append(append([]byte(nil), xmlb[:loc[1]]...), ref...), xmlb[loc[1]:]...)
+				} else if loc := reFirstStartTag.FindSubmatchIndex(xmlb); loc != nil {
+					ins := append([]byte(" ProviderName=\""), append(ref, '"')...)
+					xmlb = append(append(append([]byte(nil), xmlb[:loc[3]]...), ins...), xmlb[loc[3]:]...)
+				}
+			} else {
+				// text of an element nobody evaluates: an extension element right after the root's start tag
+				if loc := reFirstStartTag.FindSubmatchIndex(xmlb); loc != nil && !bytes.HasSuffix(bytes.TrimSpace(xmlb[loc[0]:loc[1]]), []byte("/>")) {
+					ins := append([]byte("<x:note xmlns:x=\"urn:example:note\">"), append(ref, []byte("</x:note>")...)...)
+					// after the Issuer element when there is one (schema order), else first child
+					if i := bytes.Index(xmlb, []byte("Issuer>")); i >= 0 {
+						if j := bytes.Index(xmlb[i+7:], []byte("Issuer>")); j >= 0 {
+							k := i + 7 + j + 7
+							xmlb = append(append(append([]byte(nil), xmlb[:k]...), ins...), xmlb[k:]...)
+							break
+						}
+					}
+					xmlb = append(append(append([]byte(nil), xmlb[:loc[1]]...), ins...), xmlb[loc[1]:]...)
+				}
 			}
 		case "not-xml":
 			xmlb = []byte("this is not xml at all")
